@@ -12,7 +12,7 @@ use jh_x86_64::compressor::verif_incrate as cc;
 use jh_x86_64::compressor::Compressor;
 use ppv_lite86::Machine;
 
-type W = [u32; 4];
+pub type W = [u32; 4];
 fn x(a: W, b: W) -> W { [a[0] ^ b[0], a[1] ^ b[1], a[2] ^ b[2], a[3] ^ b[3]] }
 fn n(a: W, b: W) -> W { [a[0] & b[0], a[1] & b[1], a[2] & b[2], a[3] & b[3]] }
 fn o(a: W, b: W) -> W { [a[0] | b[0], a[1] | b[1], a[2] | b[2], a[3] | b[3]] }
@@ -34,12 +34,12 @@ fn ss_half(m0: W, m1: W, m2: W, m3: W, k: W) -> (W, W, W, W) {
     m1 = x(m1, n(k, m0));
     (m0, m1, m2, m3)
 }
-fn ss_ref(s: [W; 8], k: [W; 2]) -> [W; 8] {
+pub fn ss_ref(s: [W; 8], k: [W; 2]) -> [W; 8] {
     let (a0, a1, a2, a3) = ss_half(s[0], s[2], s[4], s[6], k[0]);
     let (b0, b1, b2, b3) = ss_half(s[1], s[3], s[5], s[7], k[1]);
     [a0, b0, a1, b1, a2, b2, a3, b3]
 }
-fn l_ref(y: [W; 8]) -> [W; 8] {
+pub fn l_ref(y: [W; 8]) -> [W; 8] {
     let mut y = y;
     y[1] = x(y[1], y[2]);
     y[3] = x(y[3], y[4]);
@@ -51,7 +51,7 @@ fn l_ref(y: [W; 8]) -> [W; 8] {
     y[6] = x(y[6], y[1]);
     y
 }
-fn eq8(a: [W; 8], b: [W; 8]) -> bool {
+pub fn eq8(a: [W; 8], b: [W; 8]) -> bool {
     let mut ok = true;
     let mut i = 0;
     while i < 8 { ok &= a[i] == b[i]; i += 1; }
@@ -67,7 +67,7 @@ pub fn leaf<M: Machine>() {
     }
 }
 
-fn swapn(w: W, nbits: u32) -> W {
+pub fn swapn(w: W, nbits: u32) -> W {
     let v = (w[0] as u128) | ((w[1] as u128) << 32) | ((w[2] as u128) << 64) | ((w[3] as u128) << 96);
     let mut m = 0u128;
     let mut i = 0;
@@ -75,7 +75,7 @@ fn swapn(w: W, nbits: u32) -> W {
     let r = ((v & m) << nbits) | ((v >> nbits) & m);
     [r as u32, (r >> 32) as u32, (r >> 64) as u32, (r >> 96) as u32]
 }
-fn words(b: &[u8], off: usize) -> W {
+pub fn words(b: &[u8], off: usize) -> W {
     let g = |i: usize| u32::from_le_bytes([b[off + i], b[off + i + 1], b[off + i + 2], b[off + i + 3]]);
     [g(0), g(4), g(8), g(12)]
 }
